@@ -195,7 +195,10 @@ theorem emptyPtr_wellFormed : WellFormed emptyPtr := by
 
 /-- **C07.dec_sound**: whatever the bytes, an accepted input yields a well-formed pointer. -/
 theorem dec_sound (b : Bytes) {p : Ptr} {c : Bool} (h : dec b = .ok (p, c)) : WellFormed p := by
-  unfold dec decodeBuf at h
+  unfold dec at h
+  split at h
+  · cases h
+  unfold decodeBuf at h
   split at h
   · cases h; exact emptyPtr_wellFormed
   · split at h
@@ -204,15 +207,17 @@ theorem dec_sound (b : Bytes) {p : Ptr} {c : Bool} (h : dec b = .ok (p, c)) : We
       cases h
       exact decodeKV_wellFormed hq
 
-/-- **C07.canonical_iff**: the canonical flag is exactly byte equality with the re-encoding
-(of the bytes the decoder looked at: the first `cut`). -/
+/-- **C07.canonical_iff**: the canonical flag is exactly byte equality with the re-encoding. -/
 theorem canonical_iff (b : Bytes) {p : Ptr} {c : Bool} (h : dec b = .ok (p, c)) :
-    c = true ↔ enc p = b.take cut := by
-  unfold dec decodeBuf at h
+    c = true ↔ enc p = b := by
+  unfold dec at h
+  split at h
+  · cases h
+  unfold decodeBuf at h
   split at h
   · rename_i he
     cases h
-    have : b.take cut = [] := by simpa using he
+    have : b = [] := by simpa using he
     simp [this, enc, emptyPtr]
   · split at h
     · cases h
